@@ -19,6 +19,36 @@ def commentHead : Option Char → Bool
   | none => true
   | some c => c == 'c' || c == 'C' || c == '*' || c == '!'
 
+/-- Which of the three edits of the candidate repair the code under test has
+    (all `false` = the code as it is). -/
+structure Variant where
+  /-- `isShort = len(line) <= 6 or not line.strip()`: a line of blanks only is a
+      (held-back) comment line whatever its length -/
+  blankShort : Bool := false
+  /-- `isNewComment` also when columns 1-6 are blank and the first non-blank
+      character from column 7 on is `!` -/
+  col7Comment : Bool := false
+  /-- `excess_line = "! " + line[72:]` instead of `"!" + line[72:]` -/
+  spacedExcess : Bool := false
+  deriving Repr, DecidableEq
+
+/-- the code as it is -/
+def Variant.asIs : Variant := {}
+/-- the code with `fixes/C14-comment-lines-and-overflow-mark.diff` applied -/
+def Variant.repaired : Variant := { blankShort := true, col7Comment := true, spacedExcess := true }
+
+/-- `self.isShort` -/
+def isShortLine (v : Variant) (line : Str) : Bool :=
+  decide (line.length ≤ 6) || (v.blankShort && isBlank line)
+
+/-- `"!" in fivechars`, or (repaired) `not line[:6].strip() and line[6:].lstrip()[:1] == "!"` -/
+def bangLine (v : Variant) (line : Str) : Bool :=
+  ((line.drop 1).take 4).contains '!' ||
+    (v.col7Comment && isBlank (line.take 6) && (lstrip (line.drop 6)).head? == some '!')
+
+/-- what is put in front of the text beyond column 72 -/
+def excessMark (v : Variant) : Str := if v.spacedExcess then ['!', ' '] else ['!']
+
 /-- One analysed fixed-form line (the attributes of `FortranLine` that
     `convertToFree` and `continueLine` look at afterwards). -/
 structure FLine where
@@ -38,13 +68,13 @@ def labelText (line : Str) (omp : Bool) : Str :=
   else []
 
 /-- `FortranLine(line, length_limit)`: `__analyse` followed by `__convert`. -/
-def analyse (lim : Bool) (line : Str) : FLine :=
+def analyse (v : Variant) (lim : Bool) (line : Str) : FLine :=
   let n := line.length
   let five := (line.drop 1).take 4                  -- line[1:5]
-  let isShort := n ≤ 6
+  let isShort := isShortLine v line
   let isLong := decide (n > 73) && lim
   let isComment0 := commentHead line.head?
-  let isNewComment := five.contains '!' && !isComment0
+  let isNewComment := bangLine v line && !isComment0
   let isOMP := isComment0 && lower five == ['$', 'o', 'm', 'p']
   let isComment := isComment0 && !isOMP
   let isCpp := line.head? == some '#'
@@ -53,7 +83,7 @@ def analyse (lim : Bool) (line : Str) : FLine :=
     | c :: _ => regular && !(isSpace c || c == '0')
     | [] => false
   let long := isLong && regular
-  let excess := if long then '!' :: line.drop 72 else []
+  let excess := if long then excessMark v ++ line.drop 72 else []
   let line' := if long then line.take 72 ++ ['\n'] else line
   let code := if line'.length > 6 then line'.drop 6 else ['\n']
   let conv0 :=
@@ -76,16 +106,16 @@ def contHead : List FLine → List FLine
 
 /-- The `for line in stream` loop of `convertToFree` with `linestack` as an
     explicit argument; what is yielded, in order. -/
-def convGo (lim : Bool) : List FLine → List Str → List Str
+def convGo (v : Variant) (lim : Bool) : List FLine → List Str → List Str
   | stack, [] => stack.map (·.conv)
   | stack, l :: ls =>
-    let f := analyse lim l
+    let f := analyse v lim l
     if f.regular then
-      (if f.cont then contHead stack else stack).map (·.conv) ++ convGo lim [f] ls
-    else convGo lim (stack ++ [f]) ls
+      (if f.cont then contHead stack else stack).map (·.conv) ++ convGo v lim [f] ls
+    else convGo v lim (stack ++ [f]) ls
 
 /-- `list(convertToFree(lines, length_limit))` -/
-def convertToFree (lim : Bool) (lines : List Str) : List Str := convGo lim [] lines
+def convertToFree (v : Variant) (lim : Bool) (lines : List Str) : List Str := convGo v lim [] lines
 
 /-- the line as `FortranReader` sees it apart from the line terminator -/
 def dropNL (l : Str) : Str :=
